@@ -101,6 +101,7 @@ class C13:
                      probe_unselected_target_tick=0, probe_retarget_same_cycle_as_tick=0, simulated_time_us=end)
         v = None
         known = None
+        known_detail = None
         cur = None
         prev_view = {c: None for c in consumers}
         for t in range(0, end):
@@ -153,7 +154,9 @@ class C13:
                             st is not None or ticked(1, t) or ticked(2, t)):
                         # below a nested boundary: the nested node was evaluated (one of its inputs ticked), re-bound its
                         # forwarding output and thereby ticked the consumer with an unchanged value
-                        known = known or F10
+                        if not known:
+                            known = F10
+                            known_detail = "t=%d consumer %d below a nested boundary evaluated without cause, reading its previous value" % (t, c)
                         continue
                     v = ("consumer_evaluated_without_cause", "t=%d consumer %d evaluated (m=%d v=%d) but the selected target did not tick and no retarget to a valid target happened%s" % (
                         t, c, ci["m"], ci["v"], "; the unselected target ticked" if ticked(other, t) else ""))
@@ -182,7 +185,10 @@ class C13:
                         if not removed <= pv_keys:
                             stale = sorted(removed - pv_keys)
                             if retarget:
-                                known = known or F8
+                                # was known finding F8 (repaired, fixed entry): reported as a violation again if it returns
+                                if not known:
+                                    known = F8
+                                    known_detail = "t=%d consumer %d: on retarget removed %s which its previous value %s did not hold" % (t, c, stale, sorted(pv_keys))
                             else:
                                 v = ("removed_never_present", "t=%d consumer %d reports removed %s which its previous value %s did not hold" % (t, c, stale, sorted(pv_keys)))
                                 break
@@ -200,7 +206,7 @@ class C13:
                 prev_view[c] = val
             if v:
                 break
-        viol = dict(clause=v[0], detail=v[1]) if v else (dict(clause="known", detail=known, known=known) if known else None)
+        viol = dict(clause=v[0], detail=v[1]) if v else (dict(clause="retarget_removed_never_present", detail=known_detail, known=known) if known else None)
         return Outcome(violation=viol, stats=stats, digest=res.digest, nontrivial=stats["retargets"] >= 2, sample=sample, shape=runner.h64(text))
 
     def shrink(self, case):
